@@ -136,6 +136,8 @@ def ops_reduce(rng):
     o.append("scalarw %s ; %s ; %s" % (vec(a), vec(b), vec(w)))
     o.append("norm " + vec(one(rng)))
     a, w = pair(rng, None, "pos")
+    if rng.random() < 0.15:
+        w = [rng.choice([0.0, -1.0, 1.0, rng.uniform(-2, 2)]) for _ in w]
     o.append("normw %s ; %s" % (vec(a), vec(w)))
     a, b = pair(rng, ["ints", "reals", "mag"])
     o.append("cos %s ; %s" % (vec(a), vec(b)))
@@ -288,6 +290,9 @@ def ops_fdr(rng):
 # round 2: every overload, every combination of the boolean options, lists of 0..5 vectors
 
 def weights(rng, n):
+    k = rng.random()
+    if k < 0.12:                                            # zero and negative weights ("all weight vectors")
+        return [rng.choice([0.0, 0.0, -1.0, 1.0, rng.uniform(-2, 2), rng.uniform(0, 2)]) for _ in range(n)]
     k = rng.random()
     if k < 0.35:
         return values(rng, n, "pos")
